@@ -1,6 +1,6 @@
 (* Concurrent use of the order buffer: lock discipline (from the generated table) and
    interleavings of whole operations. *)
-From ZC Require Import Model.OrderBuffer Proof.OrderBuffer Gen.OrderBufferLocks Model.OrderBufferLocks.
+From ZC Require Import Model.OrderBuffer Proof.OrderBuffer Gen.OrderBufferLocks Model.OrderBufferLocks Proof.LockAtomic.
 Open Scope Z_scope.
 
 Lemma ob_table_disciplined : ob_disciplined ob_methods = true /\ ob_has_api ob_methods = true.
@@ -33,4 +33,20 @@ Lemma ob_concurrent_use max (threads : list (list ob_op)) ops :
 Proof.
   intros Hil b. destruct (ob_reachable_sorted_and_bounded max ops) as (H1 & H2 & H3).
   repeat split; try assumption. apply interleave_complete. exact Hil.
+Qed.
+
+(* Micro-step semantics with the mutex (Proof/LockAtomic.v) instantiated with the buffer operations:
+   whatever the schedule of lock/read and write/unlock steps of any number of goroutines, the shared
+   buffer is the sequential run of the operations in the order of their write steps, hence sorted and
+   within capacity. *)
+Lemma ob_locked_schedule_inv max (progs : list (list ob_op)) (sched : list nat) :
+  let w := run_sched _ _ _ ob_step (init_world _ _ (ob_new max) progs) sched in
+  w_shared _ _ w = fst (ob_run (ob_new max) (w_log _ _ w)) /\
+  ob_sorted (ob_items (w_shared _ _ w)) /\ (length (ob_items (w_shared _ _ w)) <= max)%nat.
+Proof.
+  intros w.
+  assert (H : w_shared _ _ w = fst (ob_run (ob_new max) (w_log _ _ w))).
+  { unfold w. rewrite (locked_ops_are_atomic _ _ _ ob_step). unfold seq_run. rewrite ob_run_fst. reflexivity. }
+  split; [exact H|]. rewrite H.
+  destruct (ob_reachable_sorted_and_bounded max (w_log _ _ w)) as (H1 & H2 & _). split; assumption.
 Qed.
